@@ -42,7 +42,8 @@ def run(algo, NA, ops, exact=True, seed=0, shared=True, eq_lr=False):
     hp = mk(algo)
     lrkw = {}
     if exact:
-        lrkw = dict(lr_actor=2.0 ** -8, lr_critic=2.0 ** (-8 if eq_lr else -7)) if algo in ("DDPG", "TD3", "MADDPG", "MATD3") else dict(lr=2.0 ** -8)
+        same = 2.0 ** -8          # eq_lr: the very same float object for both (lr = 1e-3; Algo(lr_actor=lr, lr_critic=lr))
+        lrkw = dict(lr_actor=same, lr_critic=(same if eq_lr else 2.0 ** -7)) if algo in ("DDPG", "TD3", "MADDPG", "MATD3") else dict(lr=2.0 ** -8)
     pop = [zoo.make_agent(algo, "vector", seed=seed + i, index=i, hp=(hp if shared else mk(algo)), **lrkw) for i in range(NA)]
     names = list(pop[0].registry.hp_config.names())
     def intended(opt_name):
